@@ -11,7 +11,7 @@ import json, os, shutil, subprocess, sys, time
 
 VERIF = os.path.dirname(os.path.abspath(__file__))
 SEEDED = os.path.join(VERIF, "seeded")
-WT = "/tmp/wt/confirm"
+WT = os.environ.get("MUT_WT", "/tmp/wt/confirm")
 ENV = dict(os.environ, CARGO_NET_OFFLINE="true")
 
 
